@@ -161,10 +161,15 @@ class ByteFlag(Signature):
     def __init__(self):
         super(ByteFlag, self).__init__()
         self.flags = []
+        # what was received beyond the flags this class has names for: undefined bits of the first octet and
+        # any further octets ("N octets of flags", RFC 4880 5.2.3.17, 5.2.3.21, 5.2.3.24)
+        self._unknown = 0
+        self._more = b''
 
     def __bytearray__(self):
         _bytes = super(ByteFlag, self).__bytearray__()
-        _bytes += self.int_to_bytes(sum(self.flags))
+        _bytes += self.int_to_bytes(sum(self.flags) | self._unknown)
+        _bytes += self._more
         # null-pad _bytes if they are not up to the end now
         if len(_bytes) < len(self):
             _bytes += b'\x00' * (len(self) - len(_bytes))
@@ -172,9 +177,14 @@ class ByteFlag(Signature):
 
     def parse(self, packet):
         super(ByteFlag, self).parse(packet)
-        for i in range(0, self.header.length - 1):
-            self.flags = packet[:1]
-            del packet[:1]
+        octets = packet[:(self.header.length - 1)]
+        del packet[:(self.header.length - 1)]
+        if len(octets):
+            # the named flags all live in the first octet; the bits of further octets are other flags and must
+            # not be read as if they were bits of the first one
+            self.flags = octets[:1]
+            self._unknown = octets[0] & ~sum(self.flags) & 0xFF
+            self._more = bytes(octets[1:])
 
 
 class Boolean(Signature):
